@@ -232,15 +232,22 @@ func Gen(run *vlib.Run, seed uint64, tier string) {
 	maxLen := vlib.Count(tier, 4, 6)
 	maxLenExt := vlib.Count(tier, 3, 5)
 	cat := catalogue()
-	for _, e := range cat {
+	used := 0
+	for i, e := range cat {
 		n := maxLen
 		if e.ext {
 			n = maxLenExt
+			// quick tier: a seed-dependent quarter of the extended cross product
+			if tier != "thorough" && (uint64(i)+seed)%4 != 0 {
+				continue
+			}
 		}
+		used++
 		seqs := allSeqs(e.alphabet, n)
 		addBatched(run, st, e.gd, e.ll, e.order, seqs, append([]string{"exhaustive"}, e.labels...)...)
 	}
 	run.Extra["catalogue_entries"] = len(cat)
+	run.Extra["catalogue_entries_used"] = used
 	run.Extra["exhaustive_max_len"] = maxLen
 	run.Extra["exhaustive_max_len_extended"] = maxLenExt
 
